@@ -1,5 +1,6 @@
 import VOPyVerif.Drv.Proto
 import VOPyVerif.Model.Adaptive
+import VOPyVerif.Model.AdaptiveVh
 /-! Driver front end for property C18 (adaptive discretisation / VOGP_AD set surgery).
 
 Requests (arguments separated by single spaces; inside an operation list operations are separated
@@ -24,6 +25,20 @@ by `;` and their fields by `:`; vectors are comma-separated rationals, nat lists
   (S, P, dropped sorted; `dropped` = ghost list of discarded designs), or `none@k` if operation number `k` is undefined in the model (the code would raise).
 * `children <cell>` — `childCells` of one cell given as `lo0,hi0,lo1,hi1,…`; answer: the child cells
   (matrix, product order).
+
+`RealLike` terms of `Model/AdaptiveVh.lean` evaluated at `Float` (floats IN: the exact `num/den` of
+the Python float, turned into the same `Float` by `Proto.ratToFloat`; floats OUT: IEEE-754 bit
+patterns as decimal naturals, `nan` for NaN):
+* `vh <d> <m> <delta> <pointDepth> <offset> <lengthscales> <variances>` — `Vh.designVh`: one float
+  per objective (`calculate_design_vh(model, i, depth_offset)`; `offset` a signed integer).
+* `refine <d> <m> <delta> <pointDepth> <maxDepth> <lengthscales> <variances> <scale> <diagCov>` —
+  `should_refine_design`: answer `<decision 0|1> <lhs floats> <rhs float>` with
+  `lhs[j] = scale[j]·‖std‖`, `rhs = ‖Vh‖` (`Vh.refineLhs`, `Vh.refineRhs`) and the decision
+  `Vh.shouldRefine` (depth gate first).
+* `cmp <lhs floats> <rhs float>` — `Vh.allLe`: the comparison stage `np.all(lhs <= rhs)` on operands given
+  exactly (answer `0`/`1`).
+* `adbeta <noise_var> <delta> <det> <conf_contraction>` — `Vh.vogpAdBeta` (`VOGP_AD.compute_beta`
+  given `det = np.linalg.det(Kn + I)`).
 -/
 namespace VOPy.Drv.C18
 open VOPy VOPy.Proto VOPy.Adaptive
@@ -94,7 +109,43 @@ def fmtSpace (s : Space) : String :=
     fmtMat (s.nodes.map (·.lower)),
     fmtMat (s.nodes.map (·.upper))]
 
+def fmtFloat (x : Float) : String := if x.isNaN then "nan" else toString x.toBits.toNat
+def fmtFloats (l : List Float) : String := fmtList "," fmtFloat l
+def pf (s : String) : Option Float := (parseRat s).map ratToFloat
+def pfs (s : String) : Option (List Float) := (parseVec s).map (·.map ratToFloat)
+
+/-- the `RealLike` ops (added without touching the ops below) -/
+def handleVh (args : List String) : Option String :=
+  match args with
+  | ["vh", d, m, dl, pd, off, ls, vr] =>
+    match parseNat d, parseNat m, pf dl, parseNat pd, off.toInt?, pfs ls, pfs vr with
+    | some d, some m, some δ, some pd, some off, some ls, some vr =>
+      if ls.length ≠ vr.length then some bad
+      else some (fmtFloats (Vh.designVh d m δ pd off (ls.zip vr)))
+    | _, _, _, _, _, _, _ => some bad
+  | ["refine", d, m, dl, pd, md, ls, vr, sc, dc] =>
+    match parseNat d, parseNat m, pf dl, parseNat pd, parseNat md, pfs ls, pfs vr, pfs sc, pfs dc with
+    | some d, some m, some δ, some pd, some md, some ls, some vr, some sc, some dc =>
+      if ls.length ≠ vr.length then some bad
+      else
+        let lv := ls.zip vr
+        some (fmtBool (Vh.shouldRefine d m δ pd md lv sc dc) ++ " " ++
+          fmtFloats (Vh.refineLhs sc dc) ++ " " ++ fmtFloat (Vh.refineRhs d m δ pd lv))
+    | _, _, _, _, _, _, _, _, _ => some bad
+  | ["cmp", l, r] =>
+    match pfs l, pf r with
+    | some l, some r => some (fmtBool (Vh.allLe l r))
+    | _, _ => some bad
+  | ["adbeta", nv, dl, det, c] =>
+    match pf nv, pf dl, pf det, pf c with
+    | some nv, some δ, some det, some c => some (fmtFloat (Vh.vogpAdBeta nv δ det c))
+    | _, _, _, _ => some bad
+  | _ => none
+
 def handle (args : List String) : String :=
+  match handleVh args with
+  | some r => r
+  | none =>
   match args with
   | ["space", d, m, k, ops] =>
     match parseNat d, parseNat m, parseNat k, parseList ";" parseSOp ops with
